@@ -98,6 +98,42 @@ impl<'a> Visitor for V<'a> {
                 o => viol = Some(("open-fails".into(), o.brief())),
             }
         }
+        if viol.is_none() {
+            // the other way of opening existing storage: building without open(true), with another
+            // key pair or with none (a generated one): the stored header wins
+            for other in [Some(key_pair(OTHER_KEY_SEED)), None] {
+                *self.local.entry("builds_over_existing_storage").or_insert(0) += 1;
+                let w = env::new_world(img.clone());
+                let b = builder(env::storage(&w), CacheCfg::Off);
+                let b = match other.clone() {
+                    Some(kp) => b.key_pair(kp),
+                    None => b,
+                };
+                let how = if other.is_some() { "build() with another key pair" } else { "build() without key pair" };
+                match guard(b.build()) {
+                    Out::Ok(mut c) => {
+                        let kp = c.key_pair().clone();
+                        let info = c.info();
+                        if kp.public.to_bytes() != key_pair(KEY_SEED).public.to_bytes() {
+                            viol = Some(("open-wrong-key".into(), format!("{how} over existing storage reports a different public key")));
+                        } else if info.writeable != after.w.writable || kp.secret.is_some() != after.w.writable {
+                            viol = Some(("open-wrong-writability".into(), format!("{how} over existing storage reports writeable {} expected {}", info.writeable, after.w.writable)));
+                        } else if info.length != after.w.len() {
+                            viol = Some(("open-wrong-length".into(), format!("{how} over existing storage reports length {} expected {}", info.length, after.w.len())));
+                        } else if !after.w.writable {
+                            match guard(c.append(b"x")) {
+                                Out::Err(e) if e.to_lowercase().contains("not writable") => {}
+                                o => viol = Some(("not-writable".into(), format!("append after {how} over read-only storage returned {}", o.map(|_| ()).brief()))),
+                            }
+                        }
+                    }
+                    o => viol = Some(("open-fails".into(), format!("{how} over existing storage: {}", o.map(|_| ()).brief()))),
+                }
+                if viol.is_some() {
+                    break;
+                }
+            }
+        }
         if let Some((clause, detail)) = viol {
             self.rep.violate(
                 &clause,
@@ -119,7 +155,9 @@ fn fcfg(tier: &str) -> FaultCfg {
     FaultCfg {
         prop: "C12",
         crash: true,
-        torn: if tier == "quick" { TornMode::Boundaries } else { TornMode::EveryOplogByte },
+        // the two 4096-byte header writes of make_read_only: framing-boundary cuts (every byte cut of
+        // header writes is C07 thorough's job)
+        torn: { let _ = tier; TornMode::Boundaries },
         io_faults: false,
         with_contig: false,
         cont_depth: 1,
@@ -193,8 +231,8 @@ pub fn run(tier: &str) -> i32 {
     };
     for (name, depth, alpha) in [
         ("full-alphabet+mro", if quick { 3 } else { 4 }, mk_alpha(Alpha::full())),
-        ("medium-alphabet+mro", if quick { 5 } else { 6 }, mk_alpha(Alpha::medium())),
-        ("small-alphabet+mro", if quick { 6 } else { 8 }, mk_alpha(Alpha::small())),
+        ("medium-alphabet+mro", 5, mk_alpha(Alpha::medium())),
+        ("small-alphabet+mro", if quick { 6 } else { 7 }, mk_alpha(Alpha::small())),
         (
             "append-reopen+mro",
             if quick { 9 } else { 12 },
@@ -212,11 +250,12 @@ pub fn run(tier: &str) -> i32 {
     let coverage = json!({
         "evaluations": stats.get("states_checked") + stats.get("recoveries") + stats.get("replica_states_checked"),
         "distinct_nontrivial": states.len() + images.len(),
-        "rule": "E1 over append/batch/clear/reopen/make_read_only alphabets: in every state the call result, info/has/get vs the model, open(true) on the image (stored public key, writability, second make_read_only = false, append = NotWritable) are checked; in every state after make_read_only all four files are scanned for the 32-byte secret seed; refused appends must issue no storage operation; every crash point and torn cut inside every make_read_only call recovers a writable-or-read-only core with all data; replicas: make_read_only = false, appends refused, nothing written; builder rejects key_pair + open. distinct_nontrivial = distinct states + distinct fault images",
+        "rule": "E1 over append/batch/clear/reopen/make_read_only alphabets: in every state the call result, info/has/get vs the model, open(true) on the image (stored public key, writability, second make_read_only = false, append = NotWritable) and build() without open mode over the image (with another key pair and with none: stored public key, writability and length win) are checked; in every state after make_read_only all four files are scanned for the 32-byte secret seed; refused appends must issue no storage operation; every crash point and torn cut inside every make_read_only call recovers a writable-or-read-only core with all data; replicas: make_read_only = false, appends refused, nothing written; builder rejects key_pair + open. distinct_nontrivial = distinct states + distinct fault images",
         "families": fams,
         "make_read_only_calls": stats.get("make_read_only_calls"),
         "secret_scans": stats.get("secret_scans"),
         "appends_on_keyless_core": stats.get("appends_on_keyless_core"),
+        "builds_over_existing_storage": stats.get("builds_over_existing_storage"),
         "crash_points": stats.get("crash_points"),
         "torn_images": stats.get("torn_images"),
         "replica_states_checked": stats.get("replica_states_checked"),
